@@ -50,17 +50,25 @@ func genUnsigned(c *vlib.Ctx) {
 	doms := []string{"a", model.IngestRequestEnvelopeDomain, peer.PeerRecordEnvelopeDomain, string(rep('x', 127)), string(rep('y', 128))}
 	tys := [][]byte{{3, 1}, model.IngestRequestEnvelopePayloadType, {0}, rep(7, 128)}
 	pls := []int{0, 1, 2, 127, 128, 129, 300}
-	if c.Thorough() {
-		pls = append(pls, 16383, 16384)
-	}
-	for _, d := range doms {
-		for _, t := range tys {
-			for _, n := range pls {
+	for di, d := range doms {
+		for ti, t := range tys {
+			sizes := pls
+			if c.Thorough() && di == 1 && ti == 1 {
+				// longer payloads, each case in a file of its own (coqc's string literals overflow its
+				// stack well before the 3-byte varint boundary at 16384, which is therefore covered
+				// by the theorem and the varint library's own cases only)
+				sizes = append(append([]int{}, pls...), 2000, 4000)
+			}
+			for _, n := range sizes {
 				pl := rng.Bytes(n)
 				u := layout(d, t, pl)
 				c.Eval()
 				c.Count("kind:unsigned")
-				c.Case("unsigned", fmt.Sprintf("(UnsignedCase %s %s %s %s)", vlib.CoqBytes([]byte(d)), vlib.CoqBytes(t), vlib.CoqBytes(pl), vlib.CoqBytes(u)),
+				fam := "unsigned"
+				if n > 1000 {
+					fam = "unsignedbig"
+				}
+				c.Case(fam, fmt.Sprintf("(UnsignedCase %s %s %s %s)", vlib.CoqBytes([]byte(d)), vlib.CoqBytes(t), vlib.CoqBytes(pl), vlib.CoqBytes(u)),
 					map[string]interface{}{"dom": d, "ty": hx(t), "pl_len": n})
 				sig, err := signer.Priv.Sign(u)
 				if err != nil {
